@@ -38,6 +38,7 @@ import (
 	"os/exec"
 	"path/filepath"
 	"strings"
+	"sync"
 	"testing"
 	"time"
 
@@ -111,6 +112,7 @@ func drainOch(och <-chan opshell.CLine, quiet time.Duration) []map[string]any {
 type hconn struct {
 	c    net.Conn
 	done chan struct{}
+	mu   sync.Mutex
 	buf  *bytes.Buffer
 }
 
@@ -414,12 +416,33 @@ func runHsrvCase(t *testing.T, c map[string]any, tmp string) map[string]any {
 				b := make([]byte, 65536)
 				for {
 					n, err := tc.Read(b)
+					hc.mu.Lock()
 					hc.buf.Write(b[:n])
+					hc.mu.Unlock()
 					if nil != err {
 						return
 					}
 				}
 			}()
+		case "peek": /* what has a kept connection received so far, and has its response ended by itself? */
+			if hc := conns[hstr(am, "id")]; nil != hc {
+				hc.mu.Lock()
+				got := append([]byte(nil), hc.buf.Bytes()...)
+				hc.mu.Unlock()
+				ar["got"] = hex.EncodeToString(got)
+				ended := false
+				select {
+				case <-hc.done:
+					ended = true
+				default:
+				}
+				if resp, err := http.ReadResponse(bufio.NewReader(bytes.NewReader(got)), nil); nil == err {
+					if _, e2 := io.ReadAll(resp.Body); nil == e2 && (resp.ContentLength >= 0 || 0 != len(resp.TransferEncoding)) {
+						ended = true
+					}
+				}
+				ar["ended"] = ended
+			}
 		case "send": /* more bytes on a kept connection */
 			if hc := conns[hstr(am, "id")]; nil != hc {
 				hc.c.Write(hxd(am["d"]))
@@ -428,7 +451,9 @@ func runHsrvCase(t *testing.T, c map[string]any, tmp string) map[string]any {
 			if hc := conns[hstr(am, "id")]; nil != hc {
 				hc.c.Close()
 				<-hc.done
+				hc.mu.Lock()
 				ar["got"] = hex.EncodeToString(hc.buf.Bytes())
+				hc.mu.Unlock()
 			}
 		case "line": /* operator enters a line */
 			ich <- string(hxd(am["l"]))
